@@ -75,6 +75,14 @@ CLAIMED = {
         text="Full for the combinatorial part: genCombinations enumerates exactly the non-empty order-preserving sub-lists (2^n-1), IsNonFatalConfig iff every member of every such sub-list gets >=1, PickUpMin/Max return the least/greatest q in [1,max] satisfying the predicate or 0, IsSuitableConfig => IsNonFatalConfig, monotone in the limit (given monotonicity of float64 '>' in its right argument, stated as a hypothesis), non-fatal => accepted by the v2 constructor for any dividend-conserving divider. Proved for all inputs. Model tied to both module versions by exact comparison of every helper, including composite scenarios that return the predicate for every q in [1,max]; clauses also monitored against an independent Python definition.",
         ref="5.C18, 6 (D2)", note=STD + FLOCQ,
         technique="Coq theorems over list model + extracted-model differential correspondence (v1 and v2)"),
+    "C19": dict(
+        text="Partial: proved on the models that the terminal program counter of every discipline enables no further step (C19_*_final) and that at termination of the v2 simplified discipline no handler holds an item and the output is empty, so every handler goroutine leaves its loop (C19_simple2_handlers_exit); the set of `go` statements of the seven discipline packages, regenerated from the source on every run, equals the models' goroutines (C19_goroutines, by computation in the kernel). That no goroutine is left over is observed, not proved: after every scenario -- normal, graceful, Stop, cancel, divider-fault termination, and after each of two overlapping Stop/GracefulStop calls of the v1 simplified discipline returned -- the harness waits for quiescence and counts goroutines created by library code; the synctest bubble refuses to end while one is blocked.",
+        ref="5.C19", note=STD + "No axioms. Trusted: tools/racefacts (Go AST -> Facts.v), the runtime's goroutine dump.",
+        technique="Coq structural lemmas + generated goroutine table checked by computation + goroutine accounting in a synctest bubble"),
+    "C20": dict(
+        text="Partial: data-race freedom of Go code is not expressible without a mechanised Go memory model; what is proved is confinement, over a model regenerated from the source on every run: tools/racefacts translates the seven discipline packages into a table (fields with kinds, per-function reads/writes, call graph, go statements, exported entry points) and the kernel re-checks C20_table: every plain field written after construction is accessed from exactly one single-instance goroutine (C20_no_conflicting_access states what that means; C20_checker_sound is the checker's soundness for any table). The dynamic tie and the search for a concrete failing input: free-running stress of the documented concurrent use of every discipline of both versions under the race detector (handlers receiving/releasing, control methods from other goroutines, consumers keeping and modifying copy-mode slices, a unite producer that keeps reading what it sent).",
+        ref="5.C20", note=STD + "No axioms. Trusted: tools/racefacts, the Go memory-model facts (channel send happens-before receive, `go` happens-before the goroutine's start, sync objects are race-free), the race detector. User-visible slice memory is C08's subject.",
+        technique="source-to-Coq translator + kernel-checked confinement + race-detector stress"),
 }
 
 PLANNED = ["C01", "C02", "C03", "C04", "C05", "C06", "C07", "C08", "C09", "C10", "C11", "C12", "C15", "C16", "C17", "C19", "C20"]
